@@ -1093,6 +1093,19 @@ STORE = [
          path={"None": "none"},
          pctor={"Ok": "Except.ok", "Err": "Except.error", "Errors::IncompatibleAttributes": "Track.Err.incompat", "TrackStatus::Ready": "Track.Status.ready"},
          mutmethods={"extend_from_slice": "{0} ++ {1}"}),
+    dict(group="StoreCmd", name="store_findbaked_cmd", file="track/store.rs", impl=None, fn="handle_store_ops", optmonad=True,
+         pick=lambda st: [("expr", x[2]) for x in pick_arm("FindBaked", upto_for=False)(st) if x[0] == "let" and x[1] == ("pvar", "baked")],
+         sig="{T E : Type} (bakedOf : T → Except E Track.Status) (store : List (Nat × T)) : List (Nat × Except E Track.Status)",
+         method={"lock": "{0}", "unwrap": "{0}", "iter": "{0}", "flat_map": "List.filterMap {1} {0}", "collect": "{0}", "get_attributes": "{0}", "baked": "bakedOf {0}"},
+         fieldpath={"track.observations": "()"},
+         call={"Some": "some {0}", "Ok": "Except.ok {0}", "Err": "Except.error {0}"}, path={"None": "none"},
+         pctor={"Ok": "Except.ok", "Err": "Except.error", "TrackStatus::Pending": "Track.Status.pending"}),
+    dict(group="StoreCmd", name="store_lookup_cmd", file="track/store.rs", impl=None, fn="handle_store_ops",
+         pick=lambda st: [("expr", x[2][3][0][2][0]) for x in pick_arm("Lookup", upto_for=False)(st) if x[0] == "let" and x[1] == ("pvar", "res")],
+         sig="{T Q E : Type} (idOf : T → Nat) (lookupFn : T → Q → Bool) (bakedOf : T → Except E Track.Status) (store : List (Nat × T)) (q : Q) : List (Nat × Except E Track.Status)",
+         method={"values": "List.map (fun p => p.2) {0}", "filter": "List.filter {1} {0}", "map": "List.map {1} {0}", "collect": "{0}", "lookup": "lookupFn {0} {1}",
+                 "get_attributes": "{0}", "baked": "bakedOf {0}"},
+         fieldpath={"x.observations": "()", "x.track_id": "(idOf x)"}),
     dict(group="StoreCmd", name="store_merge_cmd", file="track/store.rs", impl=None, fn="handle_store_ops", imperative=True, cps=True,
          pick=lambda st: (lambda sel: sel[:next((i for i, x in enumerate(sel) if x[0] == "let" and x[1] == ("pvar", "res")), len(sel) - 1) + 1])(pick_arm("Merge", upto_for=False)(st)),
          ret="(res, store)",
